@@ -139,6 +139,7 @@ class EvDomain(Domain):
             if cls.startswith('std::') and len(vals) == 1 and vals[0] is not None:
                 return vals[0]      # converting constructor of a std type (iterator -> const_iterator, raw -> smart pointer): same entity
             self.ev(st, Ev('construct', n, name=cls, args=vals), fr)
+            if cls.startswith(('std::unique_ptr', 'std::shared_ptr')) and not vals: return Lin.const(0)      # an empty smart pointer holds null
             return Sym(f'obj:{cls}@{n.line}')
         if k == 'new':
             init = n.n('init')
@@ -218,6 +219,13 @@ class EvDomain(Domain):
             ov = ex._value(obj, st, fr)
         e = self.ev(st, Ev('call', n, name=q, obj=on, val=ov, args=vals), fr)
         e.argobjs = [self.resolve_obj(ex, a, st, fr) if a is not None else None for a in args]
+        if q in ('std::unique_ptr::reset', 'std::unique_ptr::release') and obj is not None:
+            # the variable's value is what the smart pointer holds: reset(p) makes it p, reset() / release() null
+            loc = ex.loc_of(obj, st, fr) if obj.k in ('ref', 'member') else None
+            if loc is not None:
+                held = ex.read(loc, st, obj)
+                ex.write(loc, (vals[0] if (base == 'reset' and vals and vals[0] is not None) else Lin.const(0)), st, n)
+                if base == 'release': return held
         r = self.call_result(ex, n, q, base, on, ov, vals, st, fr)
         return r
 
@@ -333,8 +341,12 @@ def _flatten(path):
                 b = e.name.split('::')[-1]
                 if b == 'release': released.add(e.obj)
                 elif b == 'reset':
-                    d0 = Ev('delete', e.node, val=decls[e.obj][0], obj=e.obj, name='unique_ptr::reset'); d0.locks = frozenset(cur); d0.fn = e.fn; d0.tag = e.tag
-                    out.append(d0); decls[e.obj] = (e.args[0] if e.args else None, e.node)
+                    v0 = decls[e.obj][0]
+                    null0 = (isinstance(v0, Lin) and v0.is_const() and v0.c == 0) or (isinstance(v0, int) and not isinstance(v0, bool) and v0 == 0) or e.obj in released
+                    if not null0:        # reset() of an empty (or released) smart pointer deletes nothing
+                        d0 = Ev('delete', e.node, val=v0, obj=e.obj, name='unique_ptr::reset'); d0.locks = frozenset(cur); d0.fn = e.fn; d0.tag = e.tag
+                        out.append(d0)
+                    decls[e.obj] = (e.args[0] if e.args else None, e.node); released.discard(e.obj)
             if e.kind == 'guard':
                 last_guard_ev = e
                 cur.add(e.obj); e2 = Ev('acquire', e.node, obj=e.obj, val=e.val); e2.locks = frozenset(cur); e2.fn = e.fn; e2.depth = e.depth
